@@ -100,6 +100,38 @@ def run_case(ci):
                 nevals=len(first), complex_real_moved=complex_real_moved, offs=[(j, [z.real, z.imag]) for j, z in offs])
 
 
+def run_scaled(case):
+    """badly scaled maps with the complex method ("exact to rounding for affine f"): an entry that is tiny next to its row is still an
+    entry - judged relative to ITSELF"""
+    vlib.use_repo()
+    import numdifftools.nd_scipy as nds
+    n, m, tiny, kind = case
+    x0 = np.array(multi.X0[:n])
+    A = np.array([[((3 * i + 2 * j) % 7 - 3.0) or 1.5 for j in range(n)] for i in range(m)]) * np.array([10.0 ** (i % 3) for i in range(m)])[:, None]
+    A[:, n // 2] *= tiny
+    if kind == 'affine':
+        f, want = (lambda x: A.dot(x) + 1.0), A
+    else:
+        f = lambda x: A.dot(x) + np.exp(x[0] * 0.125) * np.ones(m) + tiny * np.sin(x[-1]) * np.arange(1, m + 1)
+        want = A.copy()
+        want[:, 0] += 0.125 * np.exp(x0[0] * 0.125)
+        want[:, -1] += tiny * np.cos(x0[-1]) * np.arange(1, m + 1)
+    try:
+        J = np.asarray(nds.Jacobian(f, method='complex')(x0))
+        g = np.asarray(nds.Gradient(lambda x: f(x)[0], method='complex')(x0))
+    except Exception as ex:
+        return 'raised %s: %s' % (type(ex).__name__, str(ex)[:120])
+    if np.shape(J) != want.shape:
+        return None if m == 1 else 'shape %s, expected %s' % (np.shape(J), want.shape)      # the (n,) result for m = 1 is the known finding shape:m=1
+    rel = np.abs(J - want) / np.abs(want)
+    if not (rel <= 1e-9).all():
+        i, j = np.unravel_index(int(np.argmax(rel)), rel.shape)
+        return 'entry [%d, %d] = %r, exact %r (row maximum %.3g): relative error %.3g' % (i, j, J[i, j], want[i, j], np.abs(want[i]).max(), rel[i, j])
+    if not (np.abs(np.ravel(g) - want[0]) <= 1e-9 * np.abs(want[0])).all():
+        return 'Gradient %s, exact %s' % (np.ravel(g).tolist(), want[0].tolist())
+    return None
+
+
 VIEWS = dict(id=lambda x: x, rev=lambda x: x[::-1], head=lambda x: x[:2], every2=lambda x: x[::2])
 
 
@@ -215,6 +247,11 @@ def run(tier, rep):
                 rep.violation('value:%s:%s' % (c['method'], c['kind']), dict(case=name, got=got, want=want.tolist(), scale_arg=s),
                               '%s: result %s, exact %s (extra argument s=%g)' % (name, np.round(got, 8).tolist(), want.tolist(), s))
                 break
+    scases = [(nn, mm, tiny, kind) for nn in (2, 3, 5) for mm in (1, 2, 4) for tiny in (6e-9, 1e-12, 3e-5) for kind in ('affine', 'smooth')]
+    for sc_, why in zip(scases, vlib.pool_map(run_scaled, scases, chunksize=4)):
+        n += 1
+        if why:
+            rep.violation('scaled:%s' % sc_[3], dict(case=list(sc_)), 'complex-step Jacobian of a badly scaled %s map (n=%d, m=%d, one column scaled by %g): %s' % (sc_[3], sc_[0], sc_[1], sc_[2], why))
     vcases = [(kind, nn, method) for kind in VIEWS for nn in (2, 3, 5) for method in ('central', 'forward', 'complex')]
     for vc, why in zip(vcases, vlib.pool_map(run_view, vcases, chunksize=4)):
         n += 1
